@@ -312,4 +312,13 @@ def run(P, R, tier):
     c04.effects_guarded(P, R4, cl)
     c04.lookup_skips(P, R4, cl)
     release_recognised(P, R, cl)
+    # a reply completes a client only if it was addressed to this instance: a stale OK on a reused id accepts the newcomer
+    r_, sepch, idv, serv = c04.tag_tables(P, Remap(R, {}))
+    c04.validated_return(P, Remap(R, {'C04.GRD.1': 'C02.GRD.5'}), r_, sepch, idv, serv)
+    # the +! hold is taken from the net mode set: a set must win over an earlier clear of the same letter
+    from . import c05, c06
+    c05.mode_update(P, R, 'C02.MPT.4')
+    # a second PASS (after AGAIN) is parsed as credentials again, so a +! added by the retry is honoured
+    xq, b = c06.builder(P)
+    c06.query_callers(P, Remap(R, {'C06.GRD.4': 'C02.GRD.7'}), xq, b)
     return EXPLANATION, ASSUMPTIONS
